@@ -75,6 +75,7 @@ type Snap struct {
 }
 
 type Result struct {
+	IdleSettled bool // some quiescent point was taken because nothing happened for two seconds (see player.quiescent)
 	Case     Case
 	Events   []Event
 	Snaps    []Snap
@@ -124,6 +125,7 @@ type genInfo struct {
 	LastOK    *runInfo
 	Dead      bool // wrote an error / result, or returned a cancelled error: will not run again
 	Updates   int
+	Latest    map[string]int // field -> version stamp of the latest resolver execution in any computation of this generation
 }
 
 type view struct {
@@ -143,10 +145,14 @@ type view struct {
 	writeFailed bool        // some socket write has failed
 	registered  map[int]int // resource -> generation that registered it
 	cleanups    map[int]int // resource -> number of Cleanup calls
+	lastT       time.Time   // when the last event was recorded
 }
 
 func analyze(evs []Event) *view {
 	v := &view{runs: map[int]*runInfo{}, cur: map[string]int{}, closeAllIdx: -1, curMsg: -1, registered: map[int]int{}, cleanups: map[int]int{}}
+	if len(evs) > 0 {
+		v.lastT = evs[len(evs)-1].T
+	}
 	for i, e := range evs {
 		if e.Late && e.Kind != "cut" {
 			// still analysed: the oracles look at late events separately
@@ -167,7 +173,7 @@ func analyze(evs []Event) *view {
 		case "hook":
 			switch e.Point {
 			case "conn.handleSubscribe.accept", "conn.handleMutate.accept":
-				g := &genInfo{Gen: e.Gen, ID: e.ID, IsMut: e.Point == "conn.handleMutate.accept", Msg: v.curMsg, AcceptIdx: i, EndIdx: -1}
+				g := &genInfo{Gen: e.Gen, ID: e.ID, IsMut: e.Point == "conn.handleMutate.accept", Msg: v.curMsg, AcceptIdx: i, EndIdx: -1, Latest: map[string]int{}}
 				v.gens = append(v.gens, g)
 				v.cur[e.ID] = e.Gen
 			case "conn.spawnClose":
@@ -212,6 +218,9 @@ func analyze(evs []Event) *view {
 				// a field may be read several times in one computation (aliases): the oldest read counts
 				if old, ok := r.Deps[e.Field]; !ok || e.Ver < old {
 					r.Deps[e.Field] = e.Ver
+				}
+				if r.Gen >= 0 && r.Gen < len(v.gens) {
+					v.gens[r.Gen].Latest[e.Field] = e.Ver
 				}
 			}
 		case "mwend":
@@ -338,6 +347,9 @@ func (p *player) waitFor(what string, cond func(*view) (bool, string)) bool {
 		if left <= 0 {
 			break
 		}
+		if left > 500*time.Millisecond {
+			left = 500 * time.Millisecond // conditions may also depend on how long nothing has happened
+		}
 		t := time.NewTimer(left)
 		select {
 		case <-ch:
@@ -439,6 +451,46 @@ func (p *player) quiescent(v *view) (bool, string) {
 			}
 		}
 	}
+	// memoised sub-results: a computation that finds a node's detail in the rerunner's cache does not execute the
+	// resolver, so the last computation's reads say nothing about it. The generation must have executed it, in
+	// whichever computation, at the current version. Should that never happen (a stale entry served for good) the
+	// point is taken as quiescent once nothing at all has happened for two seconds: the snapshot then shows the
+	// divergence (and the case is played twice before anything is reported, see Main).
+	var cacheGens []int
+	for _, g := range v.gens {
+		if g.EndIdx >= 0 || g.Dead || g.IsMut || g.Msg < 0 || g.Msg >= len(p.res.Fed) {
+			continue
+		}
+		if p.res.Fed[g.Msg].Op == "subscribe" && p.res.Fed[g.Msg].Q%len(SubQueries) >= FirstCacheSubQuery {
+			cacheGens = append(cacheGens, g.Gen)
+		}
+	}
+	if len(cacheGens) > 0 {
+		// an invalidation may still be walking the dependency graph (a strobe visits the dependants one after the other,
+		// and a re-run started by the first may find the second still valid in the cache: it is put right by one more
+		// re-run, once the strobe gets there)
+		if busy, why := p.rec.InvalidationsPending(cacheGens); busy {
+			return false, why
+		}
+	}
+	for _, g := range v.gens {
+		if g.EndIdx >= 0 || g.Dead || g.IsMut || g.Msg < 0 || g.Msg >= len(p.res.Fed) {
+			continue
+		}
+		for _, id := range CachedDetailIDs(p.res.Fed[g.Msg].Q, p.w.ItemsNow()) {
+			f := DetailField(id)
+			if ver, ok := g.Latest[f]; !ok || ver != p.w.Version(f) {
+				if idle := time.Since(v.lastT); !v.lastT.IsZero() && idle > 2*time.Second {
+					if !p.res.IdleSettled {
+						p.res.IdleSettled = true
+						p.rec.add(Event{Kind: "idle-settle", Field: f, Gen: g.Gen})
+					}
+					return true, ""
+				}
+				return false, fmt.Sprintf("generation %d (%s) has executed %s at version %d (%v), current %d", g.Gen, g.ID, f, ver, ok, p.w.Version(f))
+			}
+		}
+	}
 	return true, ""
 }
 
@@ -521,6 +573,11 @@ func (p *player) applySet(o Op) {
 		}
 	case "items":
 		w.Items = append([]Item{}, o.Items...)
+	default:
+		var id int64
+		if n, _ := fmt.Sscanf(o.Field, "detail:%d", &id); n == 1 {
+			w.Details[id] = Detail{D: o.Int, E: fmt.Sprintf("e%d", o.Int)}
+		}
 	case "f":
 		switch o.Str {
 		case "nan":
